@@ -121,7 +121,24 @@ MIDS = {
     "other-del": ["zz9 = 0", "del zz9"],
     "other-global": ["def s9():", IND + "global zz9", IND + "zz9 = 0", "s9()"],
     "func-for-shadow": ["def s9():", IND + "for {n} in ():", IND * 2 + "pass", "s9()"],
+    # `del` of a PART of the object (subscript / slice / attribute targets, alone, nested or next to a
+    # real name target) leaves the container name bound
+    "del-subscript": ["del {n}[0]"],
+    "del-slice": ["del {n}[1:2]"],
+    "del-attr": ["del {n}.a"],
+    "del-attr-chain": ["del {n}.a.b"],
+    "del-subscript-of-attr": ["del {n}.a[0]"],
+    "del-attr-of-subscript": ["del {n}[0].a"],
+    "del-tuple-subscript": ["z8 = 0", "del (z8, {n}[0])"],
+    "del-list-attr": ["del [{n}.a]"],
+    "del-subscript-then-name": ["z8 = 0", "del {n}[0], z8"],
+    "del-name-then-attr": ["z8 = 0", "del z8, {n}.a"],
+    "del-nested-tuple-subscript": ["z8 = 0", "del (z8, ({n}[0], {n}.a))"],
+    # stores into a part of the object are no rebinding either (and must not disturb anything)
+    "store-subscript": ["{n}[0] = 0"],
+    "store-subscript-aug": ["{n}[0] += 1"],
 }
+PART_DEL_MIDS = [k for k in MIDS if k.startswith("del-") or k.startswith("store-")]
 MID_ORDER = list(MIDS)
 
 # --------------------------------------------------------------------------------------- BINDERS
@@ -546,3 +563,40 @@ def hist_label(first, mode, events, u, f="head", name="n"):
     if name != "n":
         s += f":name={name}"
     return s
+
+
+# --------------------------------------------------------------------------------------- command lines around Python (clause m)
+# A compilation unit that ALSO contains real command lines (names c9 / c8 / x / y are never bound):
+# the Python part - any program of the grammar above - must still be exactly Python.
+# name -> (lines, number of top-level statements)
+
+PREFIXES = {
+    "bare": (["c9 -x"], 1),
+    "explicit": (["![c9 -x]"], 1),
+    "uncaptured": (["$[c9 -x]"], 1),
+    "captured-obj": (["!(c9 -x)"], 1),
+    "captured-obj-assign": (["r9 = !(c9 -x)"], 1),
+    "captured-stdout-assign": (["r9 = $(c9 -x)"], 1),
+    "chain-and": (["c9 -x && c8 -y"], 1),
+    "chain-or": (["c9 -x || c8 -y"], 1),
+    "py-chain": (["![c9 -x] and ![c8 -y]"], 1),
+    "pipe": (["c9 -x | c8 -y"], 1),
+    "in-if": (["if !(c9 -x):", IND + "pass"], 1),
+    "in-func": (["def h9():", IND + "![c9 -x]", "h9()"], 2),
+    "two": (["c9 -x", "!(c8 -y)"], 2),
+}
+PREFIX_ORDER = list(PREFIXES)
+MIX_POS = ("before", "after", "both")
+MIX_FLAGS = ("TT", "FF", "TF", "FT")  # $XONSH_SUBPROC_RAISE_ERROR, $XONSH_SUBPROC_CMD_RAISE_ERROR
+BOOL_USES = ["and", "or", "not", "and-flags", "or-not"]
+
+
+def mixed_src(q_src, prefix, pos):
+    """-> (source, slice of top-level statements that is the Python part)"""
+    lines, k = PREFIXES[prefix]
+    pre = "\n".join(lines) + "\n"
+    if pos == "before":
+        return pre + q_src, (k, None)
+    if pos == "after":
+        return q_src + pre, (0, -k)
+    return pre + q_src + pre, (k, -k)
